@@ -113,6 +113,9 @@ OnCfg(m, ev) ==
     [] ev.k = "ack_receive_max" -> [m EXCEPT !.maxReceive = ev.n, !.rmFixed = TRUE]
     [] ev.k = "client_receive_max" -> [m EXCEPT !.maxReceive = ev.n, !.rmFixed = TRUE]
     [] ev.k = "gate_stop" -> [m EXCEPT !.gateStop = (ev.n # 0)]
+    \* the application installed no protocol-control / connection-control service: the crate's defaults act, no
+    \* handler or Stop events are recorded for them
+    [] ev.k = "default_ctl" -> [m EXCEPT !.noCtl = (ev.n # 0)]
     [] ev.k = "router" -> [m EXCEPT !.router = (ev.n # 0), !.noCtl = (ev.n # 0 /\ m.role = "client")]
     [] ev.k = "strict" -> [m EXCEPT !.strict = ev.n]
     [] OTHER -> m
@@ -306,7 +309,8 @@ OnHDrop(m, ev) ==
   LET i == IdxOf(m.pubs, LAMBDA p : p.h = ev.s /\ p.st = "started") IN
   IF i = 0 THEN m
   ELSE LET m1 == [m EXCEPT !.pubs[i].st = "err", !.running = IF @ > 0 THEN @ - 1 ELSE 0] IN
-       IF Healthy(m) THEN Fail(m1, "C07:handler-cancelled-on-healthy-connection")
+       \* (without an observable connection-control service the Stop itself is not seen: not judged)
+       IF Healthy(m) /\ ~m.noCtl THEN Fail(m1, "C07:handler-cancelled-on-healthy-connection")
        ELSE IF m.stops > 0 /\ ~m.ctlDone THEN Fail(m1, "C07:handler-cancelled-before-the-stop-notification-was-handled")
        ELSE m1
 
